@@ -71,7 +71,8 @@ struct sim_stats {
     uint64_t max_runnable;
     uint64_t focus_preemptions; // preemptions landing inside a focus range with >=2 runnable
     uint64_t quiesce_start_step;
-    uint64_t auto_quiesced;     // 1 if the fault-phase step cap forced the quiescence phase
+    uint64_t auto_quiesced;
+    uint64_t mem_points;        // plain-memory schedule points (fully instrumented translation units only)     // 1 if the fault-phase step cap forced the quiescence phase
 };
 
 typedef void (*sim_fail_fn)(const char* cls, const char* msg);
@@ -105,6 +106,12 @@ void sim_dump_trace(int fd, int last_n);
 void sim_set_thread_start_hook(void (*fn)(void));
 // number of threads currently runnable / total alive
 int sim_count_runnable(void);
+
+// A harness bookkeeping section: schedule points inside are counted but never preempt the caller
+// (needed in fully instrumented translation units, where the harness's own plain accesses are
+// schedule points too). Must not contain blocking calls.
+void sim_atomic_begin(void);
+void sim_atomic_end(void);
 
 // ---- simulated MPI transport (sim/mpi_stub.cpp)
 struct sim_mpi_stats {
